@@ -148,8 +148,8 @@ func c12Level2Other() []*c12Shape {
 // level 3: contents of the lists inside events
 func c12Level3() []*c12Shape {
 	var out []*c12Shape
-	users := [][]int{nil, {3}, {0}, {1}, {2}, {3, 1}, {3, 3}}
-	changed := [][]int{nil, {3}, {2}, {0}}
+	users := [][]c12Ent{nil, {3}, {0}, {1}, {2}, {3, 1}, {3, 3}}
+	changed := [][]c12Ent{nil, {3}, {2}, {0}}
 	for _, tg := range []string{"participants", "roomlist"} {
 		for _, u := range users {
 			for _, c := range changed {
@@ -165,6 +165,85 @@ func c12Level3() []*c12Shape {
 		out = append(out, &c12Shape{Tag: "event", Id: "other", Ev: &c12Event{Target: "room", Type: "leave", Leave: l}})
 	}
 	return out
+}
+
+// level 2b: contents of the raw members the code decodes on its own (data of message /
+// control, details of an already_joined error)
+func c12Level2Variants() []*c12Shape {
+	var out []*c12Shape
+	for v := 1; v < c12Variants; v++ {
+		out = append(out, &c12Shape{Tag: "message", Id: "other", Msg: &c12SR{Sender: true, Recipient: v%2 == 0}, V: v},
+			&c12Shape{Tag: "control", Id: "other", Ctl: &c12SR{Sender: v%2 == 1, Recipient: true}, V: v},
+			&c12Shape{Tag: "error", Id: "other", Err: "aj", V: v})
+	}
+	return out
+}
+
+func c12UpdShape(target string, users, changed []c12Ent) *c12Shape {
+	return &c12Shape{Tag: "event", Id: "other", Ev: &c12Event{Target: target, Type: "update", Update: &c12Upd{Users: users, Changed: changed}}}
+}
+
+// level 3b: member-level variants of the entries of update.users / update.changed: the
+// two members the code reads as a session id ("sessionId" in CheckValid and in the
+// session's filterMessage, "sessionId" or else "sessionid" in updateEventUsers), each
+// missing / a number / null / the remote id of the federated session / another string,
+// and the actor members updateEventUsers rewrites.  Every entry alone in users, behind a
+// regular entry in users, and in changed next to a regular users list; the entries about
+// the federated session itself also twice per list and once in each list (only the first
+// one of a list is given the local id).
+func c12Level3Entries(full bool) []*c12Shape {
+	var out []*c12Shape
+	entries := []c12Ent{0}
+	for _, up := range c12SidClasses {
+		for _, lo := range c12SidClasses {
+			if full {
+				for act := 0; act < 5; act++ {
+					entries = append(entries, c12UE(up, lo, act))
+				}
+			} else {
+				entries = append(entries, c12UE(up, lo, (2*up+lo)%5))
+			}
+		}
+	}
+	good := c12UE(4, 0, 1)
+	for _, x := range entries {
+		out = append(out, c12UpdShape("participants", []c12Ent{x}, nil),
+			c12UpdShape("participants", []c12Ent{good, x}, nil),
+			c12UpdShape("participants", []c12Ent{3}, []c12Ent{x}))
+	}
+	ownLo, ownUp, otherLo := c12UE(0, 3, 0), c12UE(3, 0, 0), c12UE(0, 4, 0)
+	for _, pair := range [][2]c12Ent{{ownLo, ownLo}, {ownLo, otherLo}, {ownUp, ownLo}, {ownUp, ownUp}, {c12UE(1, 3, 0), c12UE(2, 3, 0)}} {
+		out = append(out, c12UpdShape("participants", []c12Ent{pair[0], pair[1]}, nil),
+			c12UpdShape("participants", []c12Ent{pair[0]}, []c12Ent{pair[1]}))
+	}
+	if full {
+		for _, x := range entries {
+			if _, up, lo, act := c12UEntry(x); act != 0 || up == 2 || lo == 2 {
+				continue
+			}
+			for _, y := range entries {
+				if _, up, lo, act := c12UEntry(y); act == 0 && up != 2 && lo != 2 {
+					out = append(out, c12UpdShape("participants", []c12Ent{x, y}, nil))
+				}
+			}
+			out = append(out, c12UpdShape("roomlist", []c12Ent{x}, []c12Ent{x}))
+		}
+	}
+	return out
+}
+
+// a random entry of a users list: mostly regular, often a valid one with odd other
+// members, sometimes one without a string "sessionId"
+func c12RandEntry(r *vrng) c12Ent {
+	switch x := r.intn(100); {
+	case x < 45:
+		return 3
+	case x < 85:
+		return c12UE(3+r.intn(2), r.intn(5), r.intn(5))
+	case x < 90:
+		return c12Ent(r.intn(3))
+	}
+	return c12UE(r.intn(3), r.intn(5), r.intn(5))
 }
 
 func c12RandShape(r *vrng) *c12Shape {
@@ -189,6 +268,9 @@ func c12RandShape(r *vrng) *c12Shape {
 	}
 	if s.Hel != nil {
 		s.Hel = &c12Hello{Sid: true, Resume: r.chance(80), Server: r.chance(30)}
+	}
+	if (s.Msg != nil || s.Ctl != nil || s.Err != "") && r.chance(50) {
+		s.V = r.intn(c12Variants)
 	}
 	if s.Ev != nil {
 		e := &c12Event{Target: pick(r, c12Targets), Type: pick(r, c12Types)}
@@ -215,9 +297,12 @@ func c12RandShape(r *vrng) *c12Shape {
 			e.Leave = rl(3, 0, 4)
 		}
 		if e.Update != nil {
-			e.Update = &c12Upd{Users: rl(3, 2, 3), Changed: rl(2, 3, 3)}
-			if r.chance(15) {
-				e.Update.Users = append(e.Update.Users, r.intn(3))
+			e.Update = &c12Upd{}
+			for i, n := 0, r.intn(4); i < n; i++ {
+				e.Update.Users = append(e.Update.Users, c12RandEntry(r))
+			}
+			for i, n := 0, r.intn(3); i < n; i++ {
+				e.Update.Changed = append(e.Update.Changed, c12RandEntry(r))
 			}
 		}
 		s.Ev = e
@@ -283,7 +368,16 @@ func c12Generate(env verifEnv) []*c12Case {
 		add("W/"+tag+"-without-member", 0, false, cat(c12Prefix("S3", true), c12Recv(&c12Shape{Tag: tag, Id: "other"})))
 	}
 	add("W/users-without-sessionid", 0, false, cat(c12Prefix("S3", true), c12Recv(&c12Shape{Tag: "event", Id: "other",
-		Ev: &c12Event{Target: "participants", Type: "update", Update: &c12Upd{Users: []int{1}}}})))
+		Ev: &c12Event{Target: "participants", Type: "update", Update: &c12Upd{Users: []c12Ent{1}}}})))
+	// entries of users / changed: member-level variants (C12_entry_witnesses); a regular
+	// update follows, which must still arrive
+	okUpd := c12Recv(c12UpdShape("participants", []c12Ent{3, c12UE(3, 4, 1)}, []c12Ent{c12UE(4, 3, 2)}))
+	add("W/users-lowercase-sessionid", 0, false, cat(c12Prefix("S3", true), c12Recv(c12UpdShape("participants", []c12Ent{c12UE(0, 4, 0)}, nil)), okUpd))
+	add("W/changed-lowercase-sessionid", 0, true, cat(c12Prefix("S3", true), c12Recv(c12UpdShape("participants", []c12Ent{3}, []c12Ent{c12UE(0, 4, 0)})), okUpd))
+	add("W/users-lowercase-own-id-unknown", 0, false, cat(c12Prefix("S3", false), c12Recv(c12UpdShape("participants", []c12Ent{c12UE(0, 3, 0)}, nil)), okUpd))
+	add("W/users-own-repaired-once-per-list", 0, false, cat(c12Prefix("S3", true), c12Recv(c12UpdShape("participants", []c12Ent{c12UE(1, 3, 0)}, []c12Ent{c12UE(0, 3, 0)})), okUpd))
+	add("W/users-lowercase-own-twice", 0, true, cat(c12Prefix("S3", true), c12Recv(c12UpdShape("participants", []c12Ent{c12UE(0, 3, 0), c12UE(0, 3, 0)}, nil)), okUpd))
+	add("W/users-sessionid-null", 0, false, cat(c12Prefix("S3", true), c12Recv(c12UpdShape("participants", []c12Ent{3, c12UE(2, 4, 3)}, nil)), okUpd))
 	add("W/join-null", 0, false, cat(c12Prefix("S3", true), c12Recv(&c12Shape{Tag: "event", Id: "other",
 		Ev: &c12Event{Target: "room", Type: "join", Join: []int{-1}}})))
 	// connection reset while the answer is written (coarse: the writes race with the reset)
@@ -324,6 +418,7 @@ func c12Generate(env verifEnv) []*c12Case {
 	l2e := c12Level2Events(false)
 	l2o := c12Level2Other()
 	l3 := c12Level3()
+	l3e := append(c12Level2Variants(), c12Level3Entries(thorough)...)
 	for _, stage := range []string{"S0", "S1"} {
 		for _, idk := range []string{"other", "cur", "empty"} {
 			for _, s := range l1 {
@@ -347,6 +442,14 @@ func c12Generate(env verifEnv) []*c12Case {
 				add(stage, 0, r.chance(50), cat(c12Prefix(stage, true), c12Recv(&m)))
 			}
 		}
+		// the entry variants matter after the hello; before it a sample (they must be ignored)
+		for i, s := range l3e {
+			if i%16 == int(r.intn(16)) {
+				m := *s
+				m.Id = pick(r, []string{"other", "cur", "empty"})
+				add(stage, 0, r.chance(50), cat(c12Prefix(stage, true), c12Recv(&m), c12Recv(c12WelcomeOk())))
+			}
+		}
 	}
 
 	// -- after hello: chains of shapes ---------------------------------------------------
@@ -361,7 +464,7 @@ func c12Generate(env verifEnv) []*c12Case {
 	}
 	for _, sg := range stages {
 		var pool []*c12Shape
-		for _, l := range [][]*c12Shape{l1, l2e, l2o, l3} {
+		for _, l := range [][]*c12Shape{l1, l2e, l2o, l3, l3e} {
 			pool = append(pool, l...)
 		}
 		var chain []c12Op
@@ -727,5 +830,5 @@ func TestVerifC12(t *testing.T) {
 		sink.add(c.coq(), c, effects > len(c12Prefix(strings.SplitN(c.Stage, "/", 2)[0], true)) || len(c.Obs) > 3, c.Stage[:1]+string(key))
 	}
 	sink.stats.Notes = append(sink.stats.Notes, fmt.Sprintf("operations after which the server process was gone: %d", died))
-	sink.close("hostile federation peer (websocket server) against a real Hub in a child process: at every stage (before welcome, hello pending, after hello, after join, after a resumed reconnect) every type x member-presence pattern of ServerMessage / EventServerMessage (none, each single member, all; thorough: all subsets), list contents, undecodable and binary frames, drops / resets / refusals between any two messages, client requests while disconnected; non-trivial = the case shows an effect beyond its stage prefix; distinct = distinct op lists")
+	sink.close("hostile federation peer (websocket server) against a real Hub in a child process: at every stage (before welcome, hello pending, after hello, after join, after a resumed reconnect) every type x member-presence pattern of ServerMessage / EventServerMessage (none, each single member, all; thorough: all subsets), list contents (join / leave lists; entries of update.users / update.changed with every combination of the members sessionId and sessionid missing / number / null / own id / other string, and actor members), contents of the raw members the code decodes itself, undecodable and binary frames, drops / resets / refusals between any two messages, client requests while disconnected; non-trivial = the case shows an effect beyond its stage prefix; distinct = distinct op lists")
 }
